@@ -2,10 +2,12 @@ import CJ.Drv.Loop
 import CJ.Drv.Detector
 import CJ.Drv.Announce
 /-! Driver for C10: the station → detector channel model (`c10|`: messages, sweeps and lookups on one
-detector) and the registry ∥ detector history model (`c10h|`). -/
+detector) the registry ∥ detector history model (`c10h|`) and the station scenarios around it
+(`c10s|`: ingest pipeline, shutdown sequence, availability of the channel). -/
 open CJ.Drv
 
 def main : IO Unit := runDriver fun
   | "c10" :: args => Detector.handle args
   | "c10h" :: args => Announce.handle args
+  | "c10s" :: args => Announce.handleStation args
   | _ => none
